@@ -182,6 +182,20 @@ def run(pid, tier, seed, profile, oracle, n_quick, n_thorough, variants=None, ca
         for i, r2 in zip(mism[:30], again):
             if r2["dig"] == recs[i]["dig"]: confirmed.append(i)
             else: viol.append(dict(kind="harness", concrete=False, what="case %d gives different traces when run alone (cross-case contamination in the harness)" % i))
+    # the same cases once more, this time one after the other in shared interpreters (only the documented globals are reset
+    # between them): a trace must not depend on what the process traced before -- caches, module-level tables, constants
+    # captured on first use
+    try:
+        shared = progs.run_impl_cases(cases, isolate=False)
+        leaks = [i for i, (r1, r2) in enumerate(zip(recs, shared)) if r1["dig"] != r2["dig"] and not cases[i].get("reimport")]
+        for i in leaks[:2]:
+            viol.append(dict(kind="oracle", op="isolation", key="trace-depends-on-earlier-runs",
+                             what="the trace of this program differs when other programs were traced earlier in the same process (state kept by the library between runs)",
+                             case=dict(cfg=cases[i]["cfg"], prog=cases[i]["prog"], ins=cases[i]["ins"]),
+                             fresh=dict(exn=recs[i]["exn"], nvars=recs[i]["nvars"], ncons=recs[i]["ncons"]),
+                             after_others=dict(exn=shared[i]["exn"], nvars=shared[i]["nvars"], ncons=shared[i]["ncons"])))
+    except Exception as e:
+        viol.append(dict(kind="harness", concrete=False, what="shared-interpreter run failed", detail=str(e)[-800:]))
     # property oracle on the implementation
     oviol = []
     for g in groups:
